@@ -318,6 +318,11 @@ def run(ctx):
             )
 
     ctx.section(_sec_vocab)
+    # "every emitted default validates ... parsing back yields the same interface": a default of 0 / False / '' must
+    # reach the schema like any other (C02's rule on truthiness tests of a default, which covers the JSON-schema emitter)
+    from . import c02
+
+    ctx.section(c02._falsy, ctx, index)
 
 
 
